@@ -9,6 +9,12 @@ use std::time::Instant;
 
 pub const VERIF_DIR: &str = "/verif";
 
+/// Where evidence/ and replays/ are written: /verif, unless VERIF_OUT_DIR redirects them (used for
+/// exploratory background runs that must not touch the registered evidence).
+pub fn out_dir() -> String {
+    std::env::var("VERIF_OUT_DIR").unwrap_or_else(|_| VERIF_DIR.to_string())
+}
+
 #[derive(Clone, Copy, Debug, PartialEq, Eq)]
 pub enum Tier {
     Quick,
@@ -277,8 +283,9 @@ pub fn finish(
         }
         confirmed.push(v);
     }
-    let _ = std::fs::create_dir_all(format!("{VERIF_DIR}/replays"));
-    let _ = std::fs::create_dir_all(format!("{VERIF_DIR}/evidence"));
+    let out = out_dir();
+    let _ = std::fs::create_dir_all(format!("{out}/replays"));
+    let _ = std::fs::create_dir_all(format!("{out}/evidence"));
     let mut printed = 0;
     let mut replay_paths = Vec::new();
     // smallest first
@@ -300,7 +307,7 @@ pub fn finish(
         });
         let text = serde_json::to_string_pretty(&body).unwrap();
         let path = format!(
-            "{VERIF_DIR}/replays/{}-{:016x}.json",
+            "{out}/replays/{}-{:016x}.json",
             stats.prop,
             fnv(&text)
         );
@@ -377,7 +384,7 @@ pub fn finish(
         "wall_s": stats.elapsed(),
         "violations": confirmed.len(),
     });
-    let path = format!("{VERIF_DIR}/evidence/{}.json", stats.prop);
+    let path = format!("{out}/evidence/{}.json", stats.prop);
     std::fs::write(&path, serde_json::to_string_pretty(&ev).unwrap()).expect("write evidence");
     println!(
         "{} {}: states={} transitions={} validated={} nontrivial={} exhaustive={} violations={} known={} wall={:.1}s",
